@@ -15,6 +15,7 @@ The proof forces the hypothesis "both nodes read their clocks in the same beacon
 transition time is computed from each node's own `time.Now()`: `c06_one_group_partial` + `c06_one_group_counterexample`.
 -/
 import Drand.DKG.Order
+import DrandProofs.C06Bcast
 import DrandProofs.C16
 import DrandProofs.C17
 import DrandProofs.Lemmas.Pedersen
